@@ -116,6 +116,27 @@ class SourceFile:
             cls._cache[path] = SourceFile(path)
         return cls._cache[path]
 
+    @classmethod
+    def from_text(cls, path, text):
+        """a source file whose text was rewritten in memory (R13: a closure's expression body wrapped in braces)"""
+        sf = cls.__new__(cls)
+        sf.path = path
+        sf.text = text
+        try:
+            sf.toks = lex(text)
+            sf.pairs = match_delims(sf.toks)
+        except LexError as e:
+            raise ExtractError(f'{path}: {e}')
+        sf.parent = [None] * len(sf.toks)
+        stack = []
+        for i, t in enumerate(sf.toks):
+            if t.kind == 'punct' and t.text in ')]}':
+                stack.pop()
+            sf.parent[i] = stack[-1] if stack else None
+            if t.kind == 'punct' and t.text in '([{':
+                stack.append(i)
+        return sf
+
     def line_of(self, off):
         return self.text.count('\n', 0, off) + 1
 
@@ -820,6 +841,28 @@ def extract_fn(repo, spec, features):
         while is_id(T[blo], 'async') or is_id(T[blo], 'move'):
             blo += 1
         if not is_p(T[blo], '{'):
+            # an expression body: `|p| E` is `|p| { E }` (braces around an expression are semantically neutral); the source
+            # text is rewritten in memory and the extraction starts over on it
+            _, _, _, bhi0 = closure_parts(sf, ci)
+            a_off, e_off = T[blo].start, T[bhi0 - 1].end
+            text2 = sf.text[:a_off] + '{ ' + sf.text[a_off:e_off] + ' }' + sf.text[e_off:]
+            sf = SourceFile.from_text(path, text2)
+            loc = find_fn(sf, spec['impl'], spec['name'], features, spec.get('nth'))
+            T = sf.toks
+            first, fn_kw, bo, bc = loc['first'], loc['fn_kw'], loc['body_open'], loc['body_close']
+            hits = []
+            for ci2 in closures_in(sf, bo + 1, bc):
+                plo2, phi2, blo2, bhi2 = closure_parts(sf, ci2)
+                ctext2 = ' '.join(sf.text[T[ci2].start:T[bhi2 - 1].end].split())
+                if re.search(rx, ctext2) or re.search(rx, ctext2.replace('{ ', '', 1)):
+                    hits.append((ci2, plo2, phi2, blo2))
+            if len(hits) != 1:
+                raise ExtractError(f'lost anchor: closure /{rx}/ in {spec["name"]} after wrapping ({len(hits)} matches)')
+            ci, plo, phi, blo = hits[0]
+            while is_id(T[blo], 'async') or is_id(T[blo], 'move'):
+                blo += 1
+            log.append({'step': 'R1b', 'line': sf.line_of(T[ci].start), 'note': 'closure expression body wrapped in { } before lifting'})
+        if not is_p(T[blo], '{'):
             raise ExtractError(f'R13 refused: the closure /{rx}/ of {spec["name"]} has no block body')
         if spec['ret']:
             raise ExtractError('R13: the return name goes into the declared header, not #ret')
@@ -1066,8 +1109,16 @@ def extract_fn(repo, spec, features):
                 a_ = live[offs.index(m_.start())]
                 e_i = offs.index(m_.end()) if m_.end() in offs else len(live)
                 e_ = live[e_i - 1]
-                if any(T[j].kind == 'punct' and T[j].text in '([{)]}' for j in range(a_, e_ + 1)):
-                    raise ExtractError(f'/{rx}/ in {spec["name"]}: #abstract-expr-all is for bracket-free expressions')
+                depth_ = 0
+                for j in range(a_, e_ + 1):
+                    if T[j].kind == 'punct' and T[j].text in '([{':
+                        depth_ += 1
+                    elif T[j].kind == 'punct' and T[j].text in ')]}':
+                        depth_ -= 1
+                        if depth_ < 0:
+                            break
+                if depth_ != 0:
+                    raise ExtractError(f'/{rx}/ in {spec["name"]}: #abstract-expr-all needs bracket-balanced expressions')
                 edits.add(T[a_].start, T[e_].end, repl, 'rewrite', 'R7e abstract expr')
                 dropped.append((T[a_].start, T[e_].end))
             log.append({'step': 'R7e', 'line': sf.line_of(T[live[offs.index(ms[0].start())]].start), 'occurrences': len(ms),
